@@ -8,7 +8,9 @@ LEVEL_TEXT = (
     "independent Lean CBOR/Conway reader must parse it and finds no duplicate set member / empty map / empty optional "
     "field; pallas' own decoder must accept it; the reported hash must equal the digest of the body bytes inside the "
     "payload and the auxiliary-data hash the digest of the carried metadata (recomputed by pallas from the decoded "
-    "payload); compiling twice must give identical bytes."
+    "payload); compiling twice must give identical bytes, on a fresh compiler and on one that has compiled another "
+    "template (and this one) before without a reset (the model of compile() is a function of the template and the "
+    "parameters; clause reproducible-on-a-used-compiler)."
 )
 LEVEL_NOTE = (
     cc.MODEL_NOTE + ". Partial by nature: hashing and CBOR encoding are pallas runtime behaviour (exercised, not modelled); "
